@@ -2,9 +2,13 @@
   C08 — left-recursive rules parse as the left-associative iteration they denote.
 
   The equality "seed growing = iteration" is NOT proved. Kernel-checked here: the structural facts of
-  the seed-growing loop (`parseRuleRecursiveLeader`) on the full runtime model.
+  the seed-growing loop (`parseRuleRecursiveLeader`) on the full runtime model, and — at the end of the file — the
+  TERMINATION clause: with `-support-left-recursion`, a grammar in which every same-position cycle passes through a
+  leader rule terminates on every input, without a budget (`C08_left_recursive_parse_terminates`,
+  `Proofs/AdvanceLR.lean`, `Proofs/Conv.lean`, `Proofs/LRTerm.lean`).
 -/
 import PigeonVerif.Proofs.TermProof
+import PigeonVerif.Proofs.LRTerm
 
 namespace PV
 namespace RT
@@ -52,6 +56,85 @@ theorem C08_growth_strictly_extends (last : MemoVal) (s2 : PState) (depth : Nat)
     last.end.pos.off < s2.pt.pos.off := by
   simp [hd] at hgrow
   omega
+
+/-! ### termination -/
+
+/-- **C08 (parsing terminates).** Left-recursion template, Memoize off, no budget. `LRWF`: a closed nullability oracle,
+    repetitions over non-nullable bodies, no throw/recover, and a ranking of the rules that strictly decreases along every
+    first-graph edge EXCEPT those into leader rules — every cycle "rule → rule reachable before consuming anything" passes
+    through a leader (what `builder.ComputeLeftRecursives` has to provide). Then for every code environment and every input
+    `Parse` returns at some finite depth: a leader without a seed runs the growing loop, inside which it has one; the
+    loop ends because each round after the first must end strictly later than the seed. -/
+theorem C08_left_recursive_parse_terminates (E : Env) (rn : String → Bool) (rank : String → Nat) (h : LRWF E rn rank) :
+    ∃ f, parse E f ≠ .oof := lr_parse_terminates h
+
+/-- every expression of such a grammar, from every state the parser can be in (any seeds in the table) -/
+theorem C08_every_expression_terminates (E : Env) (rn : String → Bool) (rank : String → Nat) (h : LRWF E rn rank)
+    (e : Expr) (s : PState) (hi : LI E rn s) (hwf : e.wfs rn = true) : ∃ f, parseExpr E f e s ≠ .oof :=
+  lr_terminates h e s hi hwf
+
+/-- progress with seeds: a successful evaluation never moves backwards, an expression that succeeds without consuming is
+    nullable, every seed in the table respects the same, and the table only grows -/
+theorem C08_progress_with_seeds (E : Env) (hc : LRCfg E) (rn : String → Bool)
+    (hrn : ∀ n r, E.findRule n = some r → r.expr.nul rn = true → rn n = true)
+    (f : Nat) (e : Expr) (s s' : PState) (v : Val) (hi : FInv E s) (hm : MA rn s) (h : parseExpr E f e s = .done v true s') :
+    s.pt.pos.off ≤ s'.pt.pos.off ∧ (s'.pt.pos.off = s.pt.pos.off → e.nul rn = true) ∧ MA rn s' ∧
+      ∃ new, s'.memo = new ++ s.memo := by
+  have := advLR hc hrn s.memo f e s hi ⟨hm, [], by simp⟩
+  rw [h] at this
+  obtain ⟨⟨a, b⟩, c⟩ := this
+  exact ⟨(c rfl).1, (c rfl).2, a, b⟩
+
+/-- the hypothesis is decidable given a candidate witness; `true` is sound -/
+theorem C08_checked_grammars_terminate (E : Env) (nl : List String) (rk : List (String × Nat))
+    (hc : checkLRWF E nl rk = true) : ∃ f, parse E f ≠ .oof :=
+  lr_parse_terminates (checkLRWF_sound hc)
+
+/-- a leader is needed: a same-position self-loop on a rule that is NOT a leader has no ranking -/
+theorem C08_cycle_without_leader_has_no_ranking (E : Env) (rn : String → Bool) (rank : String → Nat) (n : String) (r : Rule)
+    (hf : E.findRule n = some r) (hself : n ∈ r.expr.first rn) (hnl : isLd r = false) : ¬ LRWF E rn rank := fun h => by
+  rcases h.ranked n r hf n hself with hx | hx
+  · simp [ldName, hf, hnl] at hx
+  · exact Nat.lt_irrefl _ hx
+
+namespace ExampleC08
+
+def lit (id : Nat) (s : String) : Expr := .lit id (s.toList.map (·.toNat)) false ("\"" ++ s ++ "\"")
+
+/-- `S <- E !.` ; `E <- E "+" T / T` (leader) ; `T <- T "*" N / N` (leader) ; `N <- "1" / "(" E ")"` -/
+def rules : List Rule :=
+  [ { name := "S", displayName := "", leader := false, leftRecursive := false,
+      expr := .seq 1 [.ruleRef 2 "E", .not 3 (.any 4)] },
+    { name := "E", displayName := "", leader := true, leftRecursive := true,
+      expr := .choice 5 2 6 [.seq 6 [.ruleRef 7 "E", lit 8 "+", .ruleRef 9 "T"], .ruleRef 10 "T"] },
+    { name := "T", displayName := "", leader := true, leftRecursive := true,
+      expr := .choice 11 3 6 [.seq 12 [.ruleRef 13 "T", lit 14 "*", .ruleRef 15 "N"], .ruleRef 16 "N"] },
+    { name := "N", displayName := "", leader := false, leftRecursive := false,
+      expr := .choice 17 4 6 [lit 18 "1", .seq 19 [lit 20 "(", .ruleRef 21 "E", lit 22 ")"]] } ]
+
+def env (inp : String) : Env :=
+  { flags := { optimize := false, globalState := false, leftRec := true, basicLatin := false },
+    opts := {}, rules := rules,
+    code := { args := fun _ => [], run := fun _ ctx => { state := ctx.state, global := ctx.global } },
+    toLower := id, input := inp.toList.map (·.toNat) }
+
+/-- no rule is nullable; `T` ranks above `N` (its only edge to a non-leader); edges into the leaders `E`, `T` need nothing -/
+theorem wellformed (inp : String) : checkLRWF (env inp) [] [("T", 1)] = true := by
+  have : checkLRWF (env inp) [] [("T", 1)] = checkLRWF (env "") [] [("T", 1)] := rfl
+  rw [this]; decide
+
+example (inp : String) : ∃ f, parse (env inp) f ≠ .oof := C08_checked_grammars_terminate _ _ _ (wellformed inp)
+
+/-- ... and it does what a left-associative grammar should on `1+1*1` (kernel-evaluated) -/
+theorem parses : (match parse (env "1+1*1") 60 with | .ret _ errs _ => some errs.isEmpty | _ => none) = some true := by
+  decide
+
+/-- the same grammar with `E` NOT marked as leader fails the check (and overflows in reality) -/
+def rulesBad : List Rule := rules.map (fun r => if r.name = "E" then { r with leader := false } else r)
+
+theorem not_wellformed : checkLRWF { env "" with rules := rulesBad } [] [("T", 1)] = false := by decide
+
+end ExampleC08
 
 /-! ### kernel-evaluated witnesses of two listed findings (the model reproduces the code; the same inputs are
     replayed against the real generated parser by the check) -/
